@@ -1,4 +1,5 @@
 import GtirbVerif.Lemmas.IRAnn
+import GtirbVerif.Lemmas.IRExprs
 
 /-!
 # C04 — symbolic expressions and offset-keyed aux data travel with bytes
@@ -69,6 +70,19 @@ theorem remove_drops_the_blocks_entries {ir ir' : IR} {b : Nat} {px r : Bool} {b
     ir'.aux.omaps = ir.aux.omaps.map (fun (name, entries) =>
       (name, entries.filter (fun (el, _, _) => el != Elem.block b))) :=
   removeBlock_omaps h hb
+
+/-- **a whole `delete` keeps every symbolic expression on its byte**: whatever `delete` does to the
+blocks (two splits, a removal, joins), in the byte interval of the block the expressions in front of
+the deleted range keep their offset, those behind it move down by the deleted length and those on
+the deleted bytes are gone (`edit_keeps_outside_shifts_behind` says what `shiftKeys` contains);
+the expressions of every other interval are untouched -/
+theorem delete_keeps_expressions_on_their_bytes {ir ir' : IR} {b off len : Nat} {px : Bool} {r : Option Nat}
+    {blk : Block} {i : Nat} {iv : Interval}
+    (h : ir.delete b off len px = .ok (ir', r))
+    (hb : ir.block? b = some blk) (hbi : blk.bi = some i) (hiv : ir.interval? i = some iv) :
+    ir'.exprsOf i = some (shiftKeys (blk.off + off) len 0 iv.symExprs) ∧
+    ∀ j, j ≠ i → ir'.exprsOf j = ir.exprsOf j :=
+  delete_symExprs h hb hbi hiv
 
 /-! ### non-vacuity -/
 example : shiftKeys 2 3 1 [(0, "a"), (2, "b"), (4, "c"), (5, "d"), (9, "e")] = [(0, "a"), (3, "d"), (7, "e")] := by decide
